@@ -365,7 +365,7 @@ func masterMain(prop, tier string) int {
 					os.Remove(out)
 					os.Remove(out + ".cur")
 					cmd := exec.Command(exe, "--worker", prop, tier, out)
-					cmd.Env = append(os.Environ(), "GOMAXPROCS=2", "VERIF_DIR="+verifDir())
+					cmd.Env = append(os.Environ(), "GOMAXPROCS=2", "VERIF_DIR="+verifDir(), "VERIF_RACELOG="+out+".racelog")
 					stdin, _ := cmd.StdinPipe()
 					stdout, _ := cmd.StdoutPipe()
 					errFile, _ := os.Create(out + ".err")
@@ -396,6 +396,12 @@ func masterMain(prop, tier string) int {
 						return
 					}
 					errText, _ := os.ReadFile(out + ".err")
+					if rl, err := os.ReadFile(out + ".racelog"); err == nil && len(rl) > 0 {
+						if len(rl) > 6000 {
+							rl = rl[len(rl)-6000:]
+						}
+						errText = append(errText, rl...)
+					}
 					if ee, ok := werr.(*exec.ExitError); ok && ee.ExitCode() == 2 && !crashed {
 						fatalf("worker %d: %s", w, errText)
 					}
@@ -512,6 +518,22 @@ func finish(check *Check, tier string, st *Stats, scs []*Scenario, start time.Ti
 		v.Property, v.Tier = check.ID, tier
 		if strings.HasPrefix(v.Signature, "relation:") {
 			confirmRelation(check, tier, scs, v)
+		} else if strings.HasPrefix(v.Signature, "race:") {
+			// the race detector reports a given pair of stacks once per process: confirm in fresh processes
+			os.MkdirAll(replayDir, 0755)
+			tmp := filepath.Join(replayDir, fmt.Sprintf(".confirm-%d.json", os.Getpid()))
+			js, _ := json.Marshal(v)
+			os.WriteFile(tmp, js, 0644)
+			exe, _ := os.Executable()
+			for rep := 0; rep < 2; rep++ {
+				out, err := exec.Command(exe, "--replay", tmp).CombinedOutput()
+				ee, isExit := err.(*exec.ExitError)
+				if !isExit || ee.ExitCode() != 1 || !strings.Contains(string(out), "signature="+sigToken(v.Signature)) {
+					os.Remove(tmp)
+					fatalf("race violation %s/%s (%s) did not reproduce in a fresh process from its schedule %v:\n%s", check.ID, v.Scenario, v.Signature, v.Choices, out)
+				}
+			}
+			os.Remove(tmp)
 		} else if !strings.HasPrefix(v.Signature, "worker-death:") {
 			// re-run twice from the recorded choice vector: the observation must be identical
 			var sc *Scenario
